@@ -11,6 +11,7 @@
 //!                               -> ok <hex formatted> <comments in store> | err <n> <hex first msg> | panic <hex>
 //!   fmtdoc <width> <hexsrc>     real Document of the module (hook H4b) + real output -> ok <hex> <doc>
 //!   imports <hexsrc>           parsed import lines + real Document -> ok only|more <imports> | <doc>
+//!   list <hextext> <p|g>       real comma-separated-list production (upper ids, end `)` or `>`): elements=comments;..|end|pending
 //!   attach <hextext> <extra>    comment skeletons: plain parse | parse_expression_with_additional_preceding_comments
 //!   paren <hextext> <start> <stop>  skeleton before | after keep_parenthesis_comments
 //!   exprdoc <width> <hextext>  arithmetic-fragment tree + real Document of the expression + real layout
@@ -269,6 +270,21 @@ fn main() {
           fmtdoc(w.parse().unwrap(), &unhex_str(src))
         }
         "imports" => imports(&unhex_str(rest)),
+        "list" => {
+          let t: Vec<&str> = rest.split(' ').collect();
+          let (elems, end, pending) = samlang_parser::verif_hooks_queue::list_trace(
+            &unhex_str(t[0]),
+            t.get(1) == Some(&"p"),
+          );
+          let show = |v: &Vec<String>| if v.is_empty() { "-".to_string() } else { v.join(",") };
+          let es: Vec<String> = elems.iter().map(|(n, cs)| format!("{n}={}", show(cs))).collect();
+          format!(
+            "{}|{}|{}",
+            if es.is_empty() { "-".to_string() } else { es.join(";") },
+            show(&end),
+            show(&pending)
+          )
+        }
         "attach" => {
           let t: Vec<&str> = rest.split(' ').collect();
           let extra = csv(t.get(1).unwrap_or(&"-"));
